@@ -39,6 +39,7 @@ type Contract struct {
 	Key       string // function key, e.g. "(*dlqWindow).store", or closure selector
 	Closure   *ClosureSel
 	IsIface   bool // contract on an interface method (used at invoke sites)
+	IsFuncType bool // contract on calls through values of a named func type
 	Params    []string
 	Results   []string
 	Requires  []Clause
@@ -63,6 +64,7 @@ type Contract struct {
 
 // Def is a spec macro: //verif:def name(params) = expr
 type Def struct {
+	GhostMap string // non-empty: a ghost map component Int -> sort
 	Name   string
 	Params []string
 	Body   *SExpr
@@ -199,7 +201,7 @@ func ParseContracts(pkgPath, file string, text string) ([]*Contract, []*Def, err
 		if m := labelRe.FindStringSubmatch(kw); m != nil {
 			kw, label = m[1], m[2]
 		}
-		if kw == "func" || kw == "iface" || kw == "closure" {
+		if kw == "func" || kw == "iface" || kw == "closure" || kw == "functype" {
 			cur = &Contract{Pkg: pkgPath, File: file, Line: d.line, Loops: map[int]*LoopSpec{}, Safety: map[string]bool{}}
 			text := d.text
 			if kw == "closure" {
@@ -222,7 +224,16 @@ func ParseContracts(pkgPath, file string, text string) ([]*Contract, []*Def, err
 			cur.Params = splitNames(m[2])
 			cur.Results = splitNames(m[3])
 			cur.IsIface = kw == "iface"
+			cur.IsFuncType = kw == "functype"
 			out = append(out, cur)
+			continue
+		}
+		if kw == "ghostmap" {
+			f := strings.Fields(d.text)
+			if len(f) != 2 {
+				return nil, nil, fail(d, fmt.Errorf("ghostmap <name> <Int|Bool>"))
+			}
+			defs = append(defs, &Def{Name: f[0], GhostMap: f[1]})
 			continue
 		}
 		if kw == "def" {
